@@ -80,7 +80,9 @@ def contracts(reg):
     # accumulated term is the same OPTERM as for RedfieldRelaxationTensor.apply
     def setup_oti(S):
         n, nb = S.int("N"), S.int("Nb")
-        Km, Kd = S.array("Km", (nb, n, n), "real"), S.array("Kd", (nb, n, n), "real")
+        Km = S.array("Km", (nb, n, n), "real")
+        # precondition built into the set-up: Kd[m] is the transpose of Km[m] (how every caller constructs it)
+        Kd = V.lam_array((nb, n, n), "real", lambda idx: Km.get([idx[0], idx[2], idx[1]]))
         Lm, Ld = S.array("Lm", (nb, n, n), "cx"), S.array("Ld", (nb, n, n), "cx")
         return dict(rhoY=S.array("rhoY", (n, n), "cx"), Km=Km, Kd=Kd, Lm=Lm, Ld=Ld, ll=S.int("ll"), dt=S.real("dt"),
                     rho1=S.array("rho", (n, n), "cx"), N=n, Nb=nb, rho=None)
@@ -89,15 +91,14 @@ def contracts(reg):
         env["rho"] = env["rho1"]
     KT = "forall((m, i, j), (range(0, Nb), range(0, N), range(0, N)), Kd[m,i,j] == Km[m,j,i])"
     reg.add(Contract(
-        RP + "_OTI", setup=setup_oti, ghost=ghost_oti, requires=["N >= 0", "Nb >= 0", "ll >= 1", ("Kd-is-K-transposed", KT)],
+        RP + "_OTI", setup=setup_oti, ghost=ghost_oti, requires=["N >= 0", "Nb >= 0", "ll >= 1", ("Kd-is-K-transposed", KT)],      # (holds by construction of the set-up)
         modifies=["rhoY"],
         ensures=[("operator-form-action-added",
-                  "forall((a, b), %s, rhoY[a,b] == old(rhoY)[a,b] + (dt/ll)*Sum(mm, range(0, Nb), %s))"
+                  "forall((a, b), %s, rhoY[a,b] == old(rhoY)[a,b] + Sum(mm, range(0, Nb), (dt/ll)*(%s)))"
                   % (N2, OPTERM.format(m="mm"))),
                  ("state-untouched", "forall((a, b), %s, rho1[a,b] == old(rho1)[a,b])" % N2)],
-        loops={0: dict(inv=["forall((a, b), %s, rhoY[a,b] == entry(rhoY)[a,b] + (dt/ll)*Sum(mm, range(0, _i), %s))"
-                            % (N2, OPTERM.format(m="mm"))],
-                       modifies=["rhoY"])}))
+        loops={0: dict(inv=["forall((a, b), %s, rhoY[a,b] == entry(rhoY)[a,b] + Sum(mm, range(0, _i), (dt/ll)*(%s)))"
+                            % (N2, OPTERM.format(m="mm"))])}))
 
     def setup_tti(S):
         n = S.int("N")
@@ -141,6 +142,7 @@ def plan(ctx):
     contracts(ctx.registry)
     p.functions = [RT + "RedfieldRelaxationTensor.apply", SO + "SuperOperator.apply", RP + "_OTI", RP + "_TTI"]
     p.lemmas = [lemma_forms_agree]
+    p.oracles = ["native/oracle_C07.py"]
     p.not_decided = ["TDRedfieldRelaxationTensor.data[0] == 0 and data[-1] == static tensor (needs value-level contracts "
                      "of the two reference implementations over the spline antiderivative)",
                      "uncoupled sites reproduce exp(-i w t - g(t)) up to the time-step error",
